@@ -8,7 +8,7 @@
    exp terms, outside the log domain). *)
 From Coq Require Import QArith Qcanon ZArith.
 From mathcomp Require Import all_ssreflect all_algebra.
-From GT Require Import QcField QcOrder Tensor DetExec LogDom Obj Factor Measure Pdf Cond Moments Approx EvalLemmas Spec C01_proofs PdfLemmas C04_proofs C0809_proofs C12_proofs C07_proofs C1617_proofs Extra_proofs.
+From GT Require Import QcField QcOrder Tensor DetExec LogDom Obj Factor Measure Pdf Cond Moments Approx EvalLemmas Spec C01_proofs PdfLemmas C04_proofs C0809_proofs C12_proofs C07_proofs C1617_proofs Extra_proofs HetBound HetRelu C1617_extra.
 Local Close Scope Q_scope. Local Close Scope Qc_scope. Local Close Scope Z_scope.
 Import GRing.Theory Num.Theory.
 Local Open Scope ring_scope.
@@ -73,7 +73,28 @@ Theorem C16_feature_conditional Dx Dk Dy (M : mat F) (b : vec F) (Sig : mat F) (
     & mxf Dx Dx (fm_cond_Sigma Dx Dk Dy M b Sig Ex Exx Ek Ekx Ekk mux Sx)
       = half F *: ((mxf Dx Dx Sx - G *m Cyx) + (mxf Dx Dx Sx - G *m Cyx)^T)].
 Proof. exact: fm_conditional_spec. Qed.
+
+(* cosh-1 link: the two exponential terms of the expected noise, each the Gaussian integral of p(x) times a linear factor *)
+Theorem C16_expected_cosh_noise (p : measure LS) Dk (w : nat -> vec F) (w0 : vec F) k :
+  pdf_ok p -> uR p = 1%N -> (k < Dk)%N ->
+  (log_integral (multiply true p (mk_linear Dk (uD p) w (fun j => emb LS (w0 j) - ln2 LS)))).2 k
+    = emb LS (w0 k + dot (uD p) (w k) (getmu p 0%N) + half F * quad (uD p) (getS p 0%N) (w k)) - ln2 LS
+  /\
+  (log_integral (multiply true p (mk_linear Dk (uD p) (fun j => vopp (w j)) (fun j => emb LS (- w0 j) - ln2 LS)))).2 k
+    = emb LS (- w0 k - dot (uD p) (w k) (getmu p 0%N) + half F * quad (uD p) (getS p 0%N) (w k)) - ln2 LS.
+Proof. exact: expected_cosh_noise. Qed.
+(* step / rectified-linear links: the pre-activation h = w'x + w0 is N(w'mu + w0, w'Sigma w) -- the one-dimensional density whose
+   truncated integrals (trunc/C16R.v) are the expected noise *)
+Theorem C16_preactivation_law (p : measure LS) (w : vec F) (w0 : F) :
+  pdf_ok p -> uR p = 1%N -> 0 < quad (uD p) (getS p 0%N) w ->
+  let q := density_of_linear_sum 1 (fun _ => row1 w) (Some (fun _ => vec1 w0)) p in
+  [/\ pdf_ok q, uR q = 1%N, uD q = 1%N,
+      getmu q 0%N 0%N = dot (uD p) w (getmu p 0%N) + w0
+    & getS q 0%N 0%N 0%N = quad (uD p) (getS p 0%N) w].
+Proof. exact: preactivation_law. Qed.
 End C16.
+Print Assumptions C16_expected_cosh_noise.
+Print Assumptions C16_preactivation_law.
 Print Assumptions C16_feature_conditional.
 Print Assumptions C16_rbf_kernel.
 Print Assumptions C16_sem_kernel.
